@@ -47,7 +47,7 @@ WHITELIST = {"ev", "_apply_bin", "<genexpr>", "<listcomp>", "isinstance", "len",
              "int", "float", "bool", "get", "append", "join", "add", "sub", "mul", "truediv", "floordiv", "mod", "pow",
              "and_", "or_", "xor", "lshift", "rshift", "eq", "ne", "lt", "le", "gt", "ge", "p_int", "p_float", "p_str",
              "p_bool", "PInt", "PFloat", "PStr", "__new__", "p_isinstance", "p_len", "_flatten_classes", "tuple", "list", "_eval_const", "parse", "iter", "next",
-             "fake_parse", "rec", "rec_pow", "setprofile", "<lambda>", "_real_isinstance", "_real_len", "getattr", "hasattr", "items", "values", "keys"}
+             "fake_parse", "rec", "rec_pow", "setprofile", "bit_length", "<lambda>", "_real_isinstance", "_real_len", "getattr", "hasattr", "items", "values", "keys"}
 INTERNAL_ERRORS = (AttributeError, NameError, ImportError, KeyError, IndexError, AssertionError, UnboundLocalError)
 
 
